@@ -787,7 +787,9 @@ func readerStoreRules(c *Ctx, rule string) {
 	}
 	stStore, _ := ff.At(storeC)
 	// the argument is packet.<name>, or a local that holds it at the call
-	isPktField := func(e ast.Expr, name string) bool {
+	var isPktFieldAt func(stStore *State, e ast.Expr, name string) bool
+	isPktField := func(e ast.Expr, name string) bool { return isPktFieldAt(stStore, e, name) }
+	isPktFieldAt = func(stStore *State, e ast.Expr, name string) bool {
 		if pktObj(e) == pkt && fieldName(e) == name {
 			return true
 		}
@@ -820,7 +822,35 @@ func readerStoreRules(c *Ctx, rule string) {
 		isPktField(storeC.Args[3], "Marker") &&
 		ff.DominatedByNode(storeC, unmC)
 	c.Check(okKey, rule, "readLoop: stored under the packet's own seqno, timestamp, marker", storeC.Pos(), "Store(packet.SequenceNumber, packet.Timestamp, _, packet.Marker, buf[:bytes]) after packet.Unmarshal(buf[:bytes])", "the packet is stored under a seqno/timestamp/marker that is not parsed from the stored bytes")
-	okAnn := len(announce.Args) >= 2 && pktObj(announce.Args[0]) == pkt && fieldName(announce.Args[0]) == "SequenceNumber" && argIsResult(ff, announce, announce.Args[1], storeC, 1)
+	stAnn, _ := ff.At(announce)
+	okSeq := len(announce.Args) >= 2 && isPktFieldAt(stAnn, announce.Args[0], "SequenceNumber")
+	if !okSeq && len(announce.Args) >= 2 && okKey {
+		// the very local the packet was stored under (a local defined once)
+		if a, b := ff.term(announce.Args[0]), ff.term(storeC.Args[0]); a != nil && b != nil && a.K == 'v' && a.String() == b.String() {
+			ndef := 0
+			ast.Inspect(rl.Body(), func(n ast.Node) bool {
+				switch x := n.(type) {
+				case *ast.AssignStmt:
+					for _, l := range x.Lhs {
+						if id, isId := unparen(l).(*ast.Ident); isId && info.ObjectOf(id) == a.Obj {
+							ndef++
+						}
+					}
+				case *ast.IncDecStmt:
+					if id, isId := unparen(x.X).(*ast.Ident); isId && info.ObjectOf(id) == a.Obj {
+						ndef += 2
+					}
+				case *ast.UnaryExpr:
+					if id, isId := unparen(x.X).(*ast.Ident); isId && x.Op == token.AND && info.ObjectOf(id) == a.Obj {
+						ndef += 2
+					}
+				}
+				return true
+			})
+			okSeq = ndef == 1
+		}
+	}
+	okAnn := okSeq && argIsResult(ff, announce, announce.Args[1], storeC, 1)
 	c.Check(okAnn, rule, "readLoop: writers are told (seqno, index returned by Store)", announce.Pos(), "writers.write(packet.SequenceNumber, index, ...) with index = result #1 of Store", "writers are told another slot or seqno than the one just stored")
 	// rtpWriterPool.write builds the pair in order
 	pfn := p.SSAFunc(pw.Obj)
